@@ -5,7 +5,7 @@ from props import _lab
 PROP = "C19"
 LEVEL = "other"
 SELFTEST_PARTS = ("num",)
-WALL_BUDGET = {"quick": 1200, "thorough": 9000}
+WALL_BUDGET = {"quick": 3600, "thorough": 14400}
 PATHS = ["/a", "/b", "/A", "/a/a", "/a/b", "/b/a"]
 OIDS = ["o1", "o2", "o3", None]
 OPS = ["create", "mkdir", "rename", "delete_path", "delete_oid", "set_oid", "update"]
